@@ -1429,8 +1429,8 @@ fn note_reference_error(
     def_span: Span,
     def_note_span: Option<Span>,
 ) -> SourceDiag {
-    let span = Span::new(span.start().saturating_sub(1), span.end() + 1);
-
+    // `span` is the text of the note: it does not have to touch the parentheses (comments inside
+    // the note are not part of it), so widening it by one byte can end inside a character
     let mut e = error!("Note not allowed in reference", label!(span, "remove this"));
 
     if let Some(sp) = def_note_span {
